@@ -16,7 +16,7 @@ RULE = ("all templates with up to 4 items over {atom, sub-list, unquote, splice,
 ASSUMPTIONS = []
 
 ITEMS = ["a", "1", '"s"', "(b c)", ",(tick 1)", ",x", ",@l0", ",@l1", ",@l3", "',x", "(d ,x)", "(e ,@l3 f)", ",@(progn (tick 2) l3)", "`(n ,x)", ",(list x x)", "()",
-         "(b . ,x)", "(b ',x)", "(c '(d ,@l3))", "(g (h . ,l3))", "(k `(m ,x))", "((n) . ,x)", "(lit 1 2)", "(o (p ',x) q)", "(r . ,(tick 3))"]
+         "(b . ,x)", "(b ',x)", "(c '(d ,@l3))", "(g (h . ,l3))", "(k `(m ,x))", "((n) . ,x)", "(lit 1 2)", "(o (p ',x) q)", "(r . ,(tick 3))", "#',x", "#'(lambda (q) ,x)", "(mapcar #',x ',l3)", "#'(f ,@l3)", "'#',x"]
 
 def construction(items, tail):
     """the list/cons/append construction equivalent to the template"""
@@ -32,6 +32,7 @@ def construction(items, tail):
         elif it == "(b . ,x)": parts.append("(list (cons 'b x))")
         elif it == "(g (h . ,l3))": parts.append("(list (list 'g (cons 'h l3)))")
         elif it == "((n) . ,x)": parts.append("(list (cons '(n) x))")
+        elif it.startswith("#'") or it.startswith("'#'") or "#'," in it: return None
         elif it in ("(b ',x)", "(c '(d ,@l3))", "(k `(m ,x))", "(o (p ',x) q)", "(r . ,(tick 3))"): return None
         else: parts.append("'(%s)" % it)
     t = "nil" if tail is None else tail[1:] if tail.startswith(",") else "'" + tail
